@@ -97,6 +97,18 @@ class U_mixed(AbstractDtype):
     dtypes = ("uint8", re.compile("complex"), "bfloat16")
 
 
+class U_flags_later(AbstractDtype):
+    dtypes = [re.compile("zzz"), re.compile("FLOAT32", re.IGNORECASE)]  # every pattern keeps its own flags
+
+
+class U_flags_first(AbstractDtype):
+    dtypes = [re.compile("COMPLEX64", re.IGNORECASE), re.compile("Int8")]
+
+
+class U_backref(AbstractDtype):
+    dtypes = [re.compile("(u)int(8)"), re.compile(r"(float|int)(16|32)$"), re.compile(r"(complex)\d+$")]
+
+
 class U_re_mid(AbstractDtype):
     dtypes = re.compile("loat")  # re.match anchors at the start: matches nothing documented
 
@@ -126,6 +138,9 @@ USER = {
     "U_re_float": (U_re_float, lambda n: re.match("float.*", n) is not None),
     "U_re_int_anch": (U_re_int_anch, lambda n: re.match("int(8|16)$", n) is not None),
     "U_mixed": (U_mixed, lambda n: n in ("uint8", "bfloat16") or re.match("complex", n) is not None),
+    "U_flags_later": (U_flags_later, lambda n: n.lower() == "float32" or n.startswith("zzz")),
+    "U_flags_first": (U_flags_first, lambda n: n.lower().startswith("complex64") or n.startswith("Int8")),
+    "U_backref": (U_backref, lambda n: re.match("(u)int(8)", n) is not None or re.match(r"(float|int)(16|32)$", n) is not None or re.match(r"(complex)\d+$", n) is not None),
     "U_re_mid": (U_re_mid, lambda n: re.match("loat", n) is not None),
     "U_tuple": (U_tuple, lambda n: n in ("int2", "uint4", "float8_e5m2")),
     "U_key": (U_key, lambda n: n == "prng_key"),
@@ -137,7 +152,7 @@ for _n, _d in STRUCTS.items():
     if _n != "struct1":
         USER["U_" + _n] = (make_numpy_struct_dtype(_d, "U_" + _n), (lambda n, _s=str(_d): n == _s))
 # names that only duck arrays carry (escape hatch for user array types, docs/api/array.md "Duck-type arrays")
-DUCK_ONLY_NAMES = ["Q4_K", "q4_k", "bFloat", "bfloat", "my_dtype"]
+DUCK_ONLY_NAMES = ["Q4_K", "q4_k", "bFloat", "bfloat", "my_dtype", "Complex64", "FLOAT32", "Int8", "int8x"]
 DOCUMENTED = set().union(*[s for s in dt.TABLE.values() if s is not None])
 
 
